@@ -234,12 +234,15 @@ static std::string keyList(const vj::Value& cfg, const vj::Value& idxs, int styl
    return r;
 }
 
+struct Built;
+static std::unique_ptr<Built> buildImpl(const vj::Value& cfg, bool grouped, int extraFlags);
 struct Built {
    std::vector<std::unique_ptr<ISlot>> slots;
    std::vector<std::string> defineRes;                  // per argument: "ok" | "refused"
    std::ostringstream out, err;
    std::unique_ptr<Handler> single;                     // mode handler/string
    std::vector<std::shared_ptr<Handler>> members;       // mode groups
+   std::vector<std::unique_ptr<Built>> subs;            // sub-group handlers (kind "sub"), kept alive with the main one
    bool setupFailed = false;
    std::string setupWhat;
 };
@@ -326,6 +329,9 @@ static void addHandlerConstraints(const vj::Value& cfg, Handler& h, int member, 
 
 // builds handler(s); definition errors are recorded per argument (C05) and stop the set-up
 static std::unique_ptr<Built> build(const vj::Value& cfg, bool grouped, int extraFlags = 0) {
+   return buildImpl(cfg, grouped, extraFlags);
+}
+static std::unique_ptr<Built> buildImpl(const vj::Value& cfg, bool grouped, int extraFlags) {
    auto b = std::make_unique<Built>();
    const vj::Value& args = cfg["args"];
    const int flags = handlerFlags(cfg) | extraFlags;
@@ -338,6 +344,27 @@ static std::unique_ptr<Built> build(const vj::Value& cfg, bool grouped, int extr
    }
    for (size_t i = 0; i < args.size(); ++i) {
       const vj::Value& a = args[i];
+      if (a["kind"].str() == "sub") {
+         // sub-group (C04, raw events only): a nested handler entered by this key
+         b->slots.push_back(makeSlot("flag", vj::Value()));
+         Handler& hs = grouped ? *b->members[static_cast<size_t>(a["grp"].num())] : *b->single;
+         try {
+            auto sb = buildImpl(a["sub"], false, 0);
+            if (sb->setupFailed) throw std::runtime_error(sb->setupWhat);
+            hs.addArgument(keySpec(a), *sb->single, "D" + std::to_string(i + 1));
+            b->subs.push_back(std::move(sb));
+            b->defineRes.push_back("ok");
+         } catch (const std::exception& e) { b->defineRes.push_back("refused"); b->setupFailed = true; b->setupWhat = e.what(); break; }
+         continue;
+      }
+      if (a["kind"].str() == "argfile") {
+         // argument-file argument (C07): its value names a file with more arguments
+         b->slots.push_back(makeSlot("flag", vj::Value()));
+         Handler& hf = grouped ? *b->members[static_cast<size_t>(a["grp"].num())] : *b->single;
+         try { hf.addArgumentFile(keySpec(a)); b->defineRes.push_back("ok"); }
+         catch (const std::exception& e) { b->defineRes.push_back("refused"); b->setupFailed = true; b->setupWhat = e.what(); break; }
+         continue;
+      }
       b->slots.push_back(makeSlot(a["kind"].str(), a["init"]));
       if (!b->slots.back()) { b->setupFailed = true; b->setupWhat = "unknown kind " + a["kind"].str(); b->defineRes.push_back("refused"); break; }
       Handler& h = grouped ? *b->members[static_cast<size_t>(a["grp"].num())] : *b->single;
@@ -438,12 +465,20 @@ static void doEval(const vj::Value& cfg, const vj::Value& act, const std::string
       for (auto& c : envName) c = static_cast<char>(toupper(static_cast<unsigned char>(c)));
       setenv(envName.c_str(), act["envstr"].bytes().c_str(), 1);
    }
+   // files named by argument-file arguments (relative names: the driver runs inside its scratch directory)
+   std::vector<std::string> written;
+   for (size_t k = 0; k < act["files"].size(); ++k) {
+      const std::string fn = gScratch + "/" + act["files"][k]["name"].bytes();
+      std::ofstream f(fn, std::ios::binary | std::ios::trunc);
+      f << act["files"][k]["text"].bytes();
+      written.push_back(fn);
+   }
    std::unique_ptr<Built> b;
    try {
       b = build(cfg, grouped, extra);
    } catch (const std::exception& e) {
       vj::Line().str("e", "Eval").str("mode", mode).str("presrc", presrc).raw("filetext", "[]").raw("envstr", "[]")
-         .raw("argv", dump(act["argv"])).raw("cmd", dump(act["cmd"]))
+         .raw("argv", dump(act["argv"])).raw("cmd", dump(act["cmd"])).raw("files", "[]")
          .str("out", "setup").raw("dest", "[]").raw("tag", dump(act["tag"])).str("what", e.what()).emit();
       if (grouped) teardownGroups();
       return;
@@ -467,12 +502,14 @@ static void doEval(const vj::Value& cfg, const vj::Value& act, const std::string
          dest += "]";
       }
    }
+   for (auto& fn : written) unlink(fn.c_str());
    if (!paFile.empty()) unlink(paFile.c_str());
    if (!envName.empty()) unsetenv(envName.c_str());
    vj::Line().str("e", "Eval").str("mode", mode).str("presrc", presrc)
       .raw("filetext", act["filetext"].kind == vj::Value::Arr ? dump(act["filetext"]) : "[]")
       .raw("envstr", act["envstr"].kind == vj::Value::Arr ? dump(act["envstr"]) : "[]")
       .raw("argv", dump(act["argv"])).raw("cmd", dump(act["cmd"]))
+      .raw("files", act["files"].kind == vj::Value::Arr ? dump(act["files"]) : "[]")
       .str("out", out).raw("dest", dest).raw("tag", dump(act["tag"])).str("what", what).emit();
    b.reset();
    if (grouped) teardownGroups();
@@ -642,9 +679,11 @@ int main(int argc, char** argv) {
    const char* scratch = vh::arg(argc, argv, "--scratch", "/var/tmp");
    gScratch = std::string(scratch) + "/argdrv-" + std::to_string(getpid());
    mkdir(gScratch.c_str(), 0700);
+   if (script && script[0] != '/') { fprintf(stderr, "--script needs an absolute path\n"); return 3; }
    if (!script) { fprintf(stderr, "usage: arg_driver --script FILE [--scratch DIR]\n"); return 3; }
    FILE* f = fopen(script, "r");
    if (!f) { fprintf(stderr, "cannot open %s\n", script); return 3; }
+   if (chdir(gScratch.c_str()) != 0) { fprintf(stderr, "cannot enter %s\n", gScratch.c_str()); return 3; }
    std::string line;
    const long nthreads = vh::argnum(argc, argv, "--threads", 0);
    if (nthreads > 0) {
